@@ -51,11 +51,21 @@ type TxOutput struct {
 // parseLockKey turns a fakedb row-lock name "r|<table>|<keyString>" into the Coq key term.
 func parseLockKey(name, table string) (string, error) {
 	prefix := "r|" + strings.ToLower(table) + "|"
+	var vals []string
+	if up := "u|" + strings.ToLower(table) + "|uk"; strings.HasPrefix(name, up) {
+		// unique-value lock of secondary index uk<i>: VNull :: VInt i :: values
+		rest := name[len(up):]
+		j := strings.IndexByte(rest, '|')
+		if j < 1 {
+			return "", unsup("malformed lock name %q", name)
+		}
+		vals = append(vals, "VNull", "(VInt "+coqZ(rest[:j])+")")
+		prefix = up + rest[:j+1]
+	}
 	if !strings.HasPrefix(name, prefix) {
-		return "", unsup("lock %q is not a row lock of the table", name)
+		return "", unsup("lock %q is not a lock of the table", name)
 	}
 	ks := name[len(prefix):]
-	var vals []string
 	for len(ks) > 0 {
 		kind := ks[0]
 		i := strings.IndexByte(ks, ':')
